@@ -20,8 +20,9 @@ THEOREMS = [
     "MoreExec.Retry.C06_forwards_to_delegate",
     "MoreExec.Throttle.C06_cancelled_queued_never_handed",
     "MoreExec.BoolOp.C14_output_cancel_fans_out",
+    "MoreExec.MapFut.C06_map_cancel_forwards_or_refuses",
 ]
-KERNELS = ["K2", "K4"]
+KERNELS = ["K2", "K4", "K15"]
 BUDGET = {"quick": 150, "thorough": 1500}
 ASSUMPTIONS = [
     "the retry clause is proved on the section-level Retry model (AR1: `_jobs` mutated only under `_lock`; `cancel()` holds the "
